@@ -754,6 +754,11 @@ func (f *STFS) Rename(oldname, newname string) error {
 		}
 	}
 
+	// Renaming an existing entry to itself is a no-op
+	if oldname == newname {
+		return nil
+	}
+
 	if _, err := inventory.Stat(
 		f.metadata,
 
